@@ -25,6 +25,8 @@ TRUSTED_BASE = ['Lean 4.33 kernel', 'axioms ⊆ {propext, Classical.choice, Quot
                 'harness props/c19.py (world extraction by introspection of harness/c19pkg)',
                 '__import__ / getattr / the module system are CPython\'s']
 ASSUMPTIONS = ['packages import their submodules eagerly (a submodule is an attribute of its package)',
+               'within one case a method is addressed through one class only (gin registers a method under the selector of '
+               'the class it was configured through; base class and subclass for one inherited method is refused by gin)',
                'every file of a case enables dynamic registration (mixed static/dynamic files are not generated)',
                'binding values are integers; targets are functions, classes and methods']
 EXPLANATION = ('Lean theorems about the symbol table and attribute-chain resolution (per-file symbols, the four import forms, '
@@ -60,7 +62,11 @@ def world():
         continue
       modules.append([o.__name__.split('.'), i])
     names = {}
-    for n, v in sorted(vars(o).items()):
+    members = dict(vars(o))
+    if isinstance(o, type):   # methods a class inherits are reachable through it as well (the same function objects)
+      for n, v in inspect.getmembers(o, inspect.isfunction):
+        members.setdefault(n, v)
+    for n, v in sorted(members.items()):
       if n.startswith('_'):
         continue
       if isinstance(v, types.ModuleType) and not v.__name__.startswith(PKGS):
@@ -103,6 +109,67 @@ def spellings(w, symtab, target, maxlen=5):
         nxt.append((path + [n], o2))
     frontier = nxt
   return out
+
+
+def name_to_id(name):
+  """'c19pkg.m1:Cls.meth' -> object id in the current world (corpus files name objects, ids shift with the world)."""
+  w, _ = get_world()
+  mod, _, path = name.partition(':')
+  mods = dict((tuple(p), i) for p, i in w['modules'])
+  attrs = dict((k, dict(v)) for k, v in w['attrs'])
+  o = mods[tuple(mod.split('.'))]
+  for n in (path.split('.') if path else []):
+    o = attrs[o][n]
+  return o
+
+
+def norm_case(case):
+  def walk(stmts):
+    for s in stmts:
+      for k in ('_target', '_reftarget', '_class'):
+        if isinstance(s.get(k), str):
+          s[k] = name_to_id(s[k])
+      if s.get('k') == 'unit':
+        walk(s['body'])
+  for u in case['units']:
+    walk(u)
+  return case
+
+
+def resolve_path(w, symtab, path):
+  attrs = dict((k, dict(v)) for k, v in w['attrs'])
+  o = symtab.get(path[0]) if path else None
+  for n in path[1:]:
+    if o is None:
+      return None
+    o = attrs.get(o, {}).get(n)
+  return o
+
+
+VIA = {}   # per case: method function -> the class it is addressed through (gin ties a method to one class)
+
+
+def one_class(w, symtab, t, cands):
+  """Spellings of `t` that go through the class already used for it in this case (any, the first time)."""
+  out = []
+  for sp in cands:
+    c = resolve_path(w, symtab, sp[:-1])
+    if c in CLASS_IDS(w):
+      if VIA.get(t, c) != c:
+        continue
+    out.append(sp)
+  return out
+
+
+def note_class(w, symtab, t, sp):
+  c = resolve_path(w, symtab, sp[:-1])
+  if c in CLASS_IDS(w):
+    VIA.setdefault(t, c)
+
+
+def CLASS_IDS(w):
+  mods = {i for _, i in w['modules']}
+  return {k for k, v in w['attrs'] if v and k not in mods}
 
 
 def gen_file(rng, w, depth, outer_syms, earlier_syms):
@@ -160,20 +227,27 @@ def gen_file(rng, w, depth, outer_syms, earlier_syms):
         return stmts
       continue
     t = rng.choice(targets)
-    sp = spellings(w, symtab, t)
+    sp = one_class(w, symtab, t, spellings(w, symtab, t))
     if not sp:
       continue
     sel = list(rng.choice(sp))
+    note_class(w, symtab, t, sel)
     arg = rng.choice(params[t]) if params[t] else None
     if arg is None:
       continue
     st = {'k': 'bind', 'sel': sel, 'arg': arg, 'v': rng.randint(1, 99), '_target': t}
+    cls_id = resolve_path(w, symtab, sel[:-1])
+    if cls_id in CLASS_IDS(w) and t not in CLASS_IDS(w):   # a method (function) spelled through its class
+      st['_class'] = cls_id
+      st['_method'] = sel[-1]
     if 0.12 <= r < 0.3:
       # the value is a reference, written with a spelling of its own: `sel.arg = @ref()`
       rt = rng.choice(targets)
-      rsp = spellings(w, symtab, rt)
+      rsp = one_class(w, symtab, rt, spellings(w, symtab, rt))
       if rsp:
-        st = {'k': 'bindref', 'sel': sel, 'arg': arg, 'ref': list(rng.choice(rsp)), '_target': t, '_reftarget': rt}
+        ref = list(rng.choice(rsp))
+        note_class(w, symtab, rt, ref)
+        st = {'k': 'bindref', 'sel': sel, 'arg': arg, 'ref': ref, '_target': t, '_reftarget': rt}
         stmts.append(st)
         continue
     if r > 0.9:
@@ -214,6 +288,7 @@ def gen_cases(rng, tier, boost=1):
   w, _ = get_world()
   for _ in range((500 if tier == 'quick' else 20000) * boost):
     units, earlier = [], {}
+    VIA.clear()
     for _u in range(rng.randint(1, 2)):
       body = gen_file(rng, w, 0, {}, earlier)
       units.append(body)
@@ -272,6 +347,7 @@ def observe(gin, objs):
 
 
 def run_impl(case):
+  norm_case(case)
   gin = core.fresh_gin()
   w, objs = get_world()
   tmp = tempfile.mkdtemp(prefix='c19-')
@@ -293,6 +369,25 @@ def run_impl(case):
           err = type(e).__name__
         break
     res = {'err': err, 'err_msg': err_msg, 'bindings': observe(gin, objs), 'texts': texts + counter[1:]}
+    effects = []
+    if err is None:
+      for ci in sorted(CLASS_IDS(w)):
+        cls = objs[ci]
+        if gin.config._inverse_lookup(cls) is None:  # pylint: disable=protected-access
+          continue
+        try:
+          inst = gin.get_configurable(cls)()
+        except Exception as e:  # pylint: disable=broad-except
+          effects.append([ci, '__init__', f'{type(e).__name__}'])
+          continue
+        for n, fid in dict(w['attrs'])[ci]:
+          if isinstance(objs[fid], types.FunctionType):
+            try:
+              out = getattr(inst, n)()
+              effects.append([ci, n, out[-1] if isinstance(out[-1], int) else 'obj'])
+            except Exception as e:  # pylint: disable=broad-except
+              effects.append([ci, n, f'{type(e).__name__}'])
+    res['effects'] = effects
     # the import manager config_str() would build from the imports recorded so far
     imps = gin.config._IMPORTS  # pylint: disable=protected-access
     order = sorted(imps, key=lambda st: (st.module, not st.is_from))
@@ -376,16 +471,53 @@ def intended(case):
 
 
 def oracle(case, impl):
+  norm_case(case)
   want, err = intended(case)
   if impl['err'] != err:
     return f'expected outcome {err}, implementation gave {impl["err"]}'
   if impl['bindings'] != want:
     return (f'bindings do not sit on the objects the spellings denote: expected {want}, '
             f'registered configurables hold {impl["bindings"]} (store keys {impl["store_keys"]})')
+  why = method_effects(case, impl)
+  if why:
+    return why
   if impl.get('im_names_distinct') is False:
     return f'the import manager binds one name twice: {impl["im"]["imports"]}'
   if err is None and impl.get('roundtrip') != impl['bindings']:
     return f'config_str() parsed back gives {impl.get("roundtrip")}, before {impl["bindings"]}:\n{impl.get("config_str")}'
+  return None
+
+
+def method_effects(case, impl):
+  """A method configured through a class: instances of that class built through the registry run the method
+  with the configured value (judged only when every binding of that method went through that one class)."""
+  if impl['err'] is not None:
+    return None
+  per_fn, last = {}, {}
+
+  def walk(stmts):
+    for s in stmts:
+      if s['k'] == 'unit':
+        walk(s['body'])
+      elif s['k'] in ('bind', 'bindref') and s.get('_target') is not None and not s.get('_expect'):
+        per_fn.setdefault(s['_target'], set()).add(s.get('_class'))
+        if s['k'] == 'bind' and s.get('_class') is not None:
+          last[(s['_class'], s['_method'], s['_target'], s['arg'])] = s['v']
+        elif s.get('_class') is not None:
+          last.pop((s['_class'], s['_method'], s['_target'], s['arg']), None)
+  for u in case['units']:
+    walk(u)
+  eff = {(c, n): v for c, n, v in impl.get('effects', [])}
+  params = dict(get_world()[0]['params'])
+  for (c, n, f, arg), v in last.items():
+    if per_fn.get(f) != {c} or len(params.get(f, [])) != 1:
+      continue
+    if (c, '__init__') in eff:
+      continue   # the instance could not be built (a generated reference value that makes no sense as an argument)
+    got = eff.get((c, n))
+    if got != v:
+      return (f'method {n} configured through class {c} with {arg} = {v}: an instance of that class built through the '
+              f'registry ran it with {got}')
   return None
 
 
